@@ -11,7 +11,7 @@ use serde_json::{json, Value};
 pub static ENGINE: Engine = Engine {
     prop: "C10",
     level: "exploration",
-    rule: "the real rsbdd binary on EVERY formula with <= 3 (4) AST nodes over the CLI alphabet (4 leaves, not, & | => ^, if, 4 quantifier heads, lfp/gfp, 5 counting comparisons; names bound, free, both) with -t under filter Any/True/False; on every formula <= 2 (3) nodes additionally: all 15 accepted filter spellings and 6 rejected near-misses, the three input channels (--evaluate, file, stdin; byte-identical stdout), every permutation / ordered subset / one-name superset (unused name before, between, after) of its names as ordering file, -v, -t -b 1, -t -b 3 (byte-identical to -t), and on a 14-formula core the full cross product spelling x channel x ordering x output. Oracle: header = reference free variables in variable order; rows pairwise disjoint cubes; result column = reference value on every assignment covered; union = all / satisfying / falsifying assignments; -v lines denote exactly the satisfying assignments. distinct = distinct (argv, stdout) pairs",
+    rule: "the real rsbdd binary on EVERY formula with <= 3 (4) AST nodes over the CLI alphabet (4 leaves, not, & | => ^, if, 4 quantifier heads, lfp/gfp, 5 counting comparisons; names bound, free, both) with -t under filter Any/True/False; on every formula <= 2 (3) nodes additionally: all 15 accepted filter spellings and 6 rejected near-misses, the three input channels (--evaluate, file, stdin; byte-identical stdout), every permutation / ordered subset / one-name superset (unused name before, between, after) of its names as ordering file, -v, -t -b 1, -t -b 3 (byte-identical to -t), and on a 14-formula core the full cross product spelling x channel x ordering x output; ten formulas with five or six free variables under three filters, -v and four orderings. Oracle: header = reference free variables in variable order; rows pairwise disjoint cubes; result column = reference value on every assignment covered; union = all / satisfying / falsifying assignments; -v lines denote exactly the satisfying assignments. distinct = distinct (argv, stdout) pairs",
     assumptions: &["only the |-separated cells of stdout are read (layout is free)", "reference semantics and free-variable analysis of harness/src/refl.rs; -b 0 and -g are outside the property"],
     max_shards: 64,
     run,
@@ -199,6 +199,45 @@ pub const CORE: [&str; 14] = [
     "a", "true", "a & b", "b | a", "a ^ c", "- b => a", "exists a # a & b", "forall a # a | b", "[a, b] = 1", "[b, a] < 1", "if a then b else c", "lfp X # X | a", "gfp X # X & b", "(exists a # a) & a & b",
 ];
 
+/// formulas with five and six free variables (tables of up to 64 rows)
+pub const BIG: [&str; 10] = [
+    "[a, b, c, d, e] = 2",
+    "(a | b) & (c | d) & (e | f)",
+    "a ^ b ^ c ^ d ^ e ^ f",
+    "[a, b, c] < [d, e, f]",
+    "if a then b & c else d | e",
+    "exists c # (a & c) | (b & -c) | (d ^ e)",
+    "forall a # a => (b | c | d | e)",
+    "(a => b) & (b => c) & (c => d) & (d => e) & (e => f)",
+    "lfp X # a | (X & b) | (exists c # X & d & c)",
+    "-(a & b & c & d & e & f)",
+];
+
+pub fn big_orderings(names: &[String]) -> Vec<String> {
+    let rev: Vec<String> = names.iter().rev().cloned().collect();
+    let mut inter: Vec<String> = names.iter().step_by(2).cloned().collect();
+    inter.extend(names.iter().skip(1).step_by(2).cloned());
+    let mut rot = names.to_vec();
+    rot.rotate_left(names.len() / 2);
+    let mut sup = rev.clone();
+    sup.insert(1, "zz".to_string());
+    vec![rev.join(" "), inter.join(" "), rot.join("\n"), sup.join(" ")]
+}
+
+fn family_big(ctx: &mut Ctx, text: &str) {
+    let Ok(a) = refl::parse(text) else { return };
+    let names = a.names();
+    family_a(ctx, text);
+    check_run(ctx, &base(text, vec!["-v".into()]), Mode::Vars);
+    for o in big_orderings(&names) {
+        for (opts, mode) in [(vec!["-t".to_string()], Mode::Table(Filter::Any)), (filter_opts(Filter::False, "f"), Mode::Table(Filter::False)), (vec!["-v".to_string()], Mode::Vars)] {
+            let mut inv = base(text, opts);
+            inv.ordering = Some(o.as_bytes().to_vec());
+            check_run(ctx, &inv, mode);
+        }
+    }
+}
+
 fn family_c(ctx: &mut Ctx, text: &str, idx: &mut u64) {
     let Ok(a) = refl::parse(text) else { return };
     let names = a.names();
@@ -247,6 +286,13 @@ fn run(ctx: &mut Ctx) {
     let mut idx = 0u64;
     for f in CORE {
         family_c(ctx, f, &mut idx);
+    }
+    for f in BIG {
+        idx += 1;
+        if ctx.mine(idx) {
+            family_big(ctx, f);
+            ctx.count("big_formulas", 1);
+        }
     }
     crate::cli::cleanup_scratch();
 }
